@@ -205,6 +205,30 @@ def suite_mem(rng, tier):
             else:
                 s.mem_release(rng.randrange(0, hcount + 1))
         out.append(s)
+    # memories with one slot per frag id, or more: the slot is the frag id itself, ids 0 and 255 do not alias
+    for r in range(40 if tier == "quick" else 600):
+        slots = rng.choice([255, 256, 256, 257, 300])
+        ids = [0, 0, 1, 254, 255, 255, slots % 256]
+        s = Session("memM%d" % r)
+        s.dec_new(slots, 8, None)
+        hcount = 0
+        for _ in range(rng.randrange(5, 30)):
+            c = rng.random()
+            if c < 0.25:
+                s.prov(rng.choice([8, 8, 9]), rng.randrange(256))
+            elif c < 0.32:
+                s.dec_newpdu()
+            elif c < 0.55:
+                s.mem_new_frag(rng.choice(ids), rng.randrange(0, 8), 50, 0x0800, rng.choice([LBL_A6, LBL_A3, LBL_BC]))
+                hcount += 1
+            elif c < 0.75:
+                s.mem_take(rng.choice(ids))
+                hcount += 1
+            elif c < 0.94:
+                s.mem_save(rng.randrange(0, hcount + 1), rng.choice([None, None, rng.choice(ids)]))
+            else:
+                s.mem_release(rng.randrange(0, hcount + 1))
+        out.append(s)
     return out
 
 
@@ -420,6 +444,29 @@ def suite_decapfuzz(rng, tier):
                         if rng.random() < 0.3:
                             s.peek("h:" + b.hex())
         out.append(s)
+    # extension chains closed by every boundary value of the type field (the walk stops at the first type
+    # >= 0x0600; 0x05ff is one more 8-byte extension), on complete packets and first fragments, whole and
+    # truncated at every byte
+    closers = [0x05FF, 0x0600, 0x0601, 0x0800, 0xFFFF, 0x0100, 0x00FF, 0x0000]
+    chains = [[(0x0100 | 7, b"")], [(0x0200 | 7, b"\x01\x02")], [(0x0300 | 7, bytes(4))], [(0x0400 | 7, bytes(6))], [(0x0500 | 7, bytes(8))],
+              [(0x0101, b""), (0x0202, b"\xaa\xbb")], [(0x0501, bytes(8)), (0x0502, bytes(8)), (0x0103, b"")]]
+    for st in ("fresh", "open"):
+        s = Session("fz-extclose-%s" % st)
+        _prepare_state(s, rng, st)
+        for closer in closers:
+            for ch in chains:
+                body = b"".join(bytes([i >> 8, i & 0xFF]) + d for i, d in ch) + bytes([closer >> 8, closer & 0xFF]) + b"\xd1\xd2\xd3"
+                pkts = [bytes([0xe0 | ((len(body)) >> 8), len(body) & 0xFF]) + body,                                  # complete, broadcast
+                        bytes([0xd0, 3 + len(body)]) + b"\x01\x02\x03" + body,                                      # complete, 3-byte label
+                        bytes([0xa0, 3 + len(body)]) + bytes([1, 0, 9]) + body]                                       # first fragment, id 1, total length 9
+                for pk in pkts:
+                    s.decap("h:" + pk.hex())
+                    s.peek("h:" + pk.hex())
+                    s.prov(16, 0)
+                    if tier != "quick" or closer in (0x0600, 0x05FF):
+                        for cut in range(2, len(pk)):
+                            s.decap("h:" + pk[:cut].hex())
+        out.append(s)
     # random and mutated-valid packets
     for r in range(40 if tier == "quick" else 600):
         st = rng.choice(STATES)
@@ -441,7 +488,7 @@ def suite_decapfuzz(rng, tier):
                 pl = rng.randrange(0, 30)
                 lab = rng.choice([LBL_A6, LBL_A3, LBL_BC, LBL_RU])
                 exts = None
-                pt = 0x0800
+                pt = rng.choice([0x0800, 0x0800, 0x0600, 0x0601, 0xFFFF, 0x86DD])
                 if rng.random() < 0.3:
                     exts, pt = pick_exts(rng, pt)
                 i = s.encap(bs_gen(rng.randrange(1000), pl), rng.randrange(0, 4), pt, lab, bs_zero(rng.choice([10, 14, 20, 64])), exts=exts)
@@ -781,6 +828,12 @@ def suite_merge(rng, tier):
     out = []
     n = 0
     shapes = [(2, 2), (2, 3), (3, 3), (2, 2, 2)] if tier == "quick" else [(2, 2), (2, 3), (3, 3), (3, 4), (2, 2, 2), (2, 3, 3), (4, 4)]
+    # (slot count, frag ids of the trains — pairwise on different slots): the default, then receivers whose slot
+    # count is around the number of frag ids, with trains on the extreme ids
+    configs = [(4, [1, 2, 3, 4])]
+    extra = [(256, [0, 255, 1]), (300, [255, 0, 254]), (257, [0, 255, 256 % 256 + 2]), (255, [0, 254, 1]), (3, [253, 254, 255]),
+             (2, [0, 255]), (1000, [255, 0, 128])]
+    plan = []
     for shape in shapes:
         merges = list(_merges(list(shape)))
         if tier == "quick" and len(merges) > 40:
@@ -789,16 +842,26 @@ def suite_merge(rng, tier):
             merges = rng.sample(merges, 600)
         for mg in merges:
             for strays in ([False, True] if tier == "quick" else [False, True, True]):
+                plan.append((shape, mg, strays, configs[0]))
+    for cfgx in extra:
+        for shape in [(2, 2), (2, 3), (2, 2, 2)]:
+            if len(shape) > len(cfgx[1]):
+                continue
+            merges = list(_merges(list(shape)))
+            for mg in rng.sample(merges, min(len(merges), 4 if tier == "quick" else 30)):
+                plan.append((shape, mg, False, cfgx))
+    for shape, mg, strays, (slots, ids) in plan:
+        if True:
+            if True:
                 s = Session("merge%d" % n)
                 n += 1
                 s.strict = False
                 s.expect = []
                 s.expect_frag = []
-                slots = 4
                 s.enc("new")
                 s.enc("disable")
                 s.dec_new(slots, 64, None)
-                for _ in range(slots + 2):
+                for _ in range(min(slots, 4) + 2):
                     s.prov(64, 0)
                 trains = []
                 for t, nf in enumerate(shape):
@@ -807,7 +870,7 @@ def suite_merge(rng, tier):
                     first = 7 + lab.wire_len() + 2
                     per = max(1, (pl - 2) // max(1, nf - 1))
                     bufs = [3 + per] * (nf - 2) + [64]
-                    tr = _train(s, rng, bs_gen(500 + n * 5 + t, pl), t + 1, 0x0800 + t, lab, first, bufs)
+                    tr = _train(s, rng, bs_gen(500 + n * 5 + t, pl), ids[t], 0x0800 + t, lab, first, bufs)
                     trains.append(tr)
                 s.trains = trains
                 ptr = [0] * len(shape)
@@ -1249,4 +1312,55 @@ def suite_utils(rng, tier):
             i = s.encap_frag(pdu, (fid, crc, 0), bs_zero(pl + 7))
             s.ops[i]["utils_twin"] = a
     out.append(s)
+    # whole trains described with the four structs, serialised by `generate`, and handed to a decapsulator:
+    # what utils generates from well-formed descriptions is what the decapsulator accepts with the same field
+    # values (every label kind, re-use included: Total Length and CRC count the label AS WRITTEN; first
+    # fragments carrying all but 0..7 bytes of the PDU; empty and one-byte payloads)
+    for k in range(120 if tier == "quick" else 2500):
+        s = Session("utilstrain%d" % k)
+        s.strict = False
+        s.expect = []
+        s.expect_frag = []
+        s.dec_new(2, 300, None)
+        for _ in range(3):
+            s.prov(300, 0)
+
+        def both(kind, line_fields, f, s=s):
+            ref = ref_build(kind, f)
+            s.add("u_gen %s %s %d" % (kind, line_fields, len(ref)), op="u_gen", kind=kind, wf=True, fields=f, ref=ref)
+            s.add("u_parse %s h:%s" % (kind, ref.hex()), op="u_parse", kind=kind, wf=True, fields=f, ref=ref)
+            return s.decap("h:" + ref.hex())
+
+        saved = rng.choice([LBL_A6, LBL_A3])
+        lab = rng.choice([LBL_A6, LBL_A3, LBL_BC, LBL_RU, LBL_RU])
+        pt = rng.choice([0x0600, 0x0800, 0xFFFF])
+        fid = rng.choice([0, 1, 7, 254, 255])
+        if lab.kind == "U" or rng.random() < 0.3:
+            cp = bs_gen(k + 5, 4)
+            both("C", "%d %04x %s %s" % (2 + saved.wire_len() + 4, 0x0800, saved.tok(), cp.expr), (2 + saved.wire_len() + 4, 0x0800, saved, cp))
+            s.prov(300, 0)
+            resolved = saved if lab.kind == "U" else lab
+        else:
+            resolved = lab
+        total = rng.choice([1, 2, 5, 8, 20, 60, 200])
+        rest_after_first = min(total, rng.choice([0, 1, 2, 3, 4, 5, 6, 7, total, total // 2]))
+        p1 = total - rest_after_first
+        whole = gen_bytes(9000 + k, total)
+        ll = lab.wire_len()
+        tl = 2 + ll + total
+        d = both("F", "%d %d %d %04x %s %s" % (5 + ll + p1, fid, tl, pt, lab.tok(), "h:" + whole[:p1].hex() if p1 else "-"),
+                 (5 + ll + p1, fid, tl, pt, lab, BS("h:" + whole[:p1].hex() if p1 else "-", whole[:p1])))
+        s.expect_frag.append((d, ["C20"]))
+        pos = p1
+        if total - pos > 1 and rng.random() < 0.6:
+            n2 = rng.randrange(1, total - pos)
+            d = both("I", "%d %d %s" % (1 + n2, fid, "h:" + whole[pos:pos + n2].hex()), (1 + n2, fid, BS("h:" + whole[pos:pos + n2].hex(), whole[pos:pos + n2])))
+            s.expect_frag.append((d, ["C20"]))
+            pos += n2
+        crc = ref_gse_crc(whole, pt, tl, lab.data)
+        lastp = whole[pos:]
+        d = both("E", "%d %d %s %08x" % (5 + len(lastp), fid, "h:" + lastp.hex() if lastp else "-", crc),
+                 (5 + len(lastp), fid, BS("h:" + lastp.hex() if lastp else "-", lastp), crc))
+        s.expect.append((d, BS("-", whole), ["C20"], resolved if resolved.kind != "B" else None))
+        out.append(s)
     return out
